@@ -393,3 +393,16 @@ Theorem C20_empty_msg_alone_sent :
   map qsize cs' = [0%Z; 0%Z] /\ map can_send cs' = [true; true].
 Proof. exact empty_msg_alone_sent. Qed.
 Print Assumptions C20_empty_msg_alone_sent.
+
+(* ------------------------------------------------------------------ source tie *)
+
+(** The model's frame sizes, the chunking loop of Write, the chunk-length and buffer tests of Read,
+    incrNonce, canSend / isSendPending / nextPacketMsg (EOF test and flags) / recvPacketMsg
+    (capacity test), one step of sendPacketMsg's least-ratio loop, recvRoutine's unknown-channel
+    test, protoio's declared-length test and the identity comparisons of
+    MultiplexTransport.upgrade ARE the expressions go2coq translates from the current Go sources
+    (Generated/C20Source.v), on the operands pinned in SourceTie.v (statement spelled out there). *)
+From Kardia Require Import C20.SourceTie.
+Theorem C20_source_tie : C20_source_tie_statement.
+Proof. exact C20_source_tie_proof. Qed.
+Print Assumptions C20_source_tie.
